@@ -64,6 +64,7 @@ private:
   std::shared_ptr<sdk::common::ThreadInstrumentation> worker_thread_instrumentation_;
   std::shared_ptr<sdk::common::ThreadInstrumentation> collect_thread_instrumentation_;
   std::thread worker_thread_;
+  std::mutex worker_join_m_;  // serializes the joins of concurrent Shutdown calls
 };
 
 }  // namespace metrics
